@@ -500,16 +500,19 @@ pub fn format_swift_amount(amount: f64, decimals: usize) -> String {
 /// assert_eq!(format_swift_amount_for_currency(123.456, "BHD"), "123,456");
 /// ```
 pub fn format_swift_amount_for_currency(amount: f64, currency: &str) -> String {
-    let decimals = get_currency_decimals(currency);
-    let mut formatted = format_swift_amount(amount, decimals as usize);
+    let decimals = get_currency_decimals(currency) as usize;
+    let mut formatted = format_swift_amount(amount, decimals);
     // An amount component is 15d and the parsers reject anything longer. Trailing zeros of the
-    // decimal part are optional, so drop those that would push the text beyond the limit (and
-    // the comma too if a 15-digit integer part leaves no room for it, as read by parse_amount).
-    while formatted.len() > 15 && formatted.contains(',') && formatted.ends_with('0') {
-        formatted.pop();
-    }
-    if formatted.len() > 15 && formatted.ends_with(',') {
-        formatted.pop();
+    // decimal part are optional, and with a long integer part the last of the currency's decimal
+    // places lie beyond the precision of the value: write fewer decimals until the text fits
+    // (keeping the decimal comma where there is room for it).
+    let mut places = decimals;
+    while formatted.len() > 15 && places > 0 {
+        places -= 1;
+        formatted = format_swift_amount(amount, places);
+        if places == 0 && decimals > 0 && formatted.len() < 15 {
+            formatted.push(',');
+        }
     }
     formatted
 }
